@@ -6,7 +6,9 @@
 (*            the tensor the same estimator was fitted on first)                                      *)
 (*   e.ten  = [op |-> "matching", shape, idx, vals]  (exact tier; e.data = the entries fed to the     *)
 (*            code) or [op |-> "measured", shape, fam] with e.tails = measured tails of the           *)
-(*            unfoldings relative to ||X||^2 (scale 10^8)                                              *)
+(*            unfoldings relative to ||X||^2 (scale 10^8), or [op |-> "rotated", shape, idx, vals, exps] *)
+(*            (graded tier: a matching tensor with entries vals * 2^exps, rotated by orthogonal matrices  *)
+(*            in every mode; e.out.err2_lv = err^2 in the units of every level)                           *)
 (*   e.out  = [raised, ranks, err2_q, rel_q, fin]   err2_q on the scale of the tails, rel_q = relative   *)
 (*            error * 10^12 (capped at 2 * 10^9)                                                        *)
 (* Clauses in order: InDomain, Outcome, Ranks, Finite, ExactAtSufficientRank, LowerBound, UpperBound. *)
@@ -41,13 +43,33 @@ InDomain(e) ==
     /\ IF e.ten.op = "matching"
        THEN /\ ValidMatching(e.ten) /\ e.ten.shape = e.cfg.shape /\ e.data = DataOf(e.ten)
             /\ (e.svd = "randomized_svd" => Raises(e.cfg) \/ RandCovered(e.cfg, Len(e.ten.vals)))
+       ELSE IF e.ten.op = "rotated"
+       THEN /\ ValidRotated(e.ten) /\ GradedOK(e.svd, e.ten) /\ e.ten.shape = e.cfg.shape /\ e.pow2 = 0 /\ e.dtype = "float64"
+            /\ Len(e.out.err2_lv) = Len(Levels)
+            /\ (e.svd = "randomized_svd" => Raises(e.cfg) \/ RandCovered(e.cfg, Len(e.ten.vals)))
        ELSE /\ e.ten.op = "measured" /\ MeasuredOK(e)
             /\ e.svd # "randomized_svd"        \* not an exact method on dense data (no oversampling control here)
 
 \* c: the configuration whose rank vector the bounds read (the request, or for computed specifications the
 \* returned ranks)
+\* graded tier: e.out.err2_lv[k] = rint(err^2 / 4^Levels[k] * 10^6), capped at 2 * 10^9
+JudgeGraded(e, c) ==
+    LET d  == GradedSpectrum(e.ten)
+        lo == LowerVec(c, d)
+        up == UpperVec(c, d)
+        J  == NUnf(c)
+    IN  IF IsZeroVec(up) THEN (IF e.out.rel_q > ExactRelTol(e.dtype) THEN "ExactAtSufficientRank" ELSE "ok")
+        ELSE LET L  == LeadLevel(up)
+                 ub == AtLevel(up, L) + Len(Levels)                       \* (+1 per truncated division)
+             IN  IF e.out.err2_lv[LevelIndex(L)] > ub + LevelSlack(J, ub, L) THEN "UpperBound"
+                 ELSE IF IsZeroVec(lo) THEN "ok"
+                 ELSE LET M  == LeadLevel(lo)
+                          lb == AtLevel(lo, M)
+                      IN  IF e.out.err2_lv[LevelIndex(M)] < lb - LevelSlack(J, lb, M) THEN "LowerBound" ELSE "ok"
+
 Judge(e, c) ==
     IF ~e.out.fin THEN "Finite"
+    ELSE IF e.ten.op = "rotated" THEN JudgeGraded(e, c)
     ELSE LET tails == IF e.ten.op = "matching" THEN ExactTails(c, e.ten) ELSE e.tails
              lb == LowerBound(c, tails)
              ub == UpperBound(c, tails)
